@@ -148,6 +148,23 @@ impl TreeD {
         })
     }
 
+    /// Largest number of junctions on one root-to-leaf path such that each (but the first) lies inside
+    /// a NON-last branch of the previous one, minus one: 0 = no nested junction.
+    fn nest_depth(&self) -> usize {
+        fn go(t: &TreeD, i: usize) -> usize {
+            // longest such sequence of junctions starting at or below `i` (counted in junctions)
+            let kids: Vec<usize> = t.nodes[i].ch.iter().flatten().copied().collect();
+            let below = kids.iter().map(|c| go(t, *c)).max().unwrap_or(0);
+            if kids.len() >= 2 {
+                let inner = kids[..kids.len() - 1].iter().map(|c| go(t, *c)).max().unwrap_or(0);
+                below.max(1 + inner)
+            } else {
+                below
+            }
+        }
+        go(self, 0).saturating_sub(1)
+    }
+
     fn is_chain(&self) -> bool {
         (0..self.nodes.len()).all(|i| self.nodes[i].ch.iter().flatten().count() <= 1)
     }
@@ -321,7 +338,8 @@ struct Expect {
     down: Vec<[Option<u16>; 4]>,
     arrival: Vec<u64>,
     chain: bool,
-    nested: bool,
+    /// junctions nested inside non-last branches (input distribution only; nothing is excused by it)
+    nest_depth: usize,
     wrap: bool,
     /// per position k >= 1 of a chain: (pd of the upstream neighbour, return delay of this device)
     chain_fwd_ret: Vec<(u64, u64)>,
@@ -351,13 +369,8 @@ fn monitor_assign(rs: &[Rep], out: &Out, ex: &Expect, rep: &mut Report, line: &s
             let wrong_parent = ds.iter().zip(&ex.parent).position(|(d, p)| d.parent_index != *p);
             let wrong_port = ds.iter().zip(&ex.down).position(|(d, p)| d.downstream != *p);
             if wrong_parent.is_some() || wrong_port.is_some() {
-                let key = if ex.wrap {
-                    "c17/port-time-wrap"
-                } else if ex.nested {
-                    "c17/nested-junction-wrong-parent"
-                } else {
-                    "c17/wrong-parent"
-                };
+                // (nested junctions are ordinary valid trees since the parent search skips full junctions)
+                let key = if ex.wrap { "c17/port-time-wrap" } else { "c17/wrong-parent" };
                 let what = match wrong_parent {
                     Some(i) => format!("device {i}: parent {:?}, true upstream neighbour {:?}", ds[i].parent_index, ex.parent[i]),
                     None => {
@@ -401,14 +414,7 @@ fn monitor_assign(rs: &[Rep], out: &Out, ex: &Expect, rep: &mut Report, line: &s
         }
         Out::Err(e) => {
             if ex.valid_tree {
-                // a wrongly chosen (full) junction now yields Err(Topology) instead of a panic: same root cause
-                let key = if ex.wrap {
-                    "c17/port-time-wrap"
-                } else if ex.nested {
-                    "c17/nested-junction-wrong-parent"
-                } else {
-                    "c17/valid-tree-error"
-                };
+                let key = if ex.wrap { "c17/port-time-wrap" } else { "c17/valid-tree-error" };
                 rep.fail(key, &format!("valid tree rejected: {e}"), line);
             }
         }
@@ -416,8 +422,6 @@ fn monitor_assign(rs: &[Rep], out: &Out, ex: &Expect, rep: &mut Report, line: &s
             let key = if ex.valid_tree {
                 if ex.wrap {
                     "c17/port-time-wrap".to_string()
-                } else if ex.nested && *class == "nofree" {
-                    "c17/nested-junction-panic".to_string()
                 } else {
                     format!("c17/valid-tree-panic-{class}")
                 }
@@ -653,30 +657,88 @@ fn gen_tree(rng: &mut Rng, n: usize, shape: Shape, sym: bool, mix: DcMix) -> Tre
         if !ok {
             continue;
         }
-        // DC support in frame order
-        let order = t.walk(0).order;
-        let k = order.len();
-        match mix {
-            DcMix::All => {
-                for i in 0..k {
-                    t.nodes[order[i]].dc = *rng.pick(&[2u8, 2, 3, 1]);
-                }
-            }
-            DcMix::Mixed => {
-                for i in 0..k {
-                    t.nodes[order[i]].dc = *rng.pick(&[0u8, 0, 2, 2, 3, 1]);
-                }
-            }
-            DcMix::Contiguous => {
-                let a = rng.below(k as u64) as usize;
-                let b = rng.range(a as u64, k as u64 - 1) as usize;
-                for i in 0..k {
-                    t.nodes[order[i]].dc = if i >= a && i <= b { *rng.pick(&[2u8, 3, 1]) } else { 0 };
-                }
-            }
-        }
+        assign_dc(rng, &mut t, mix);
         return t;
     }
+}
+
+/// DC support in frame order.
+fn assign_dc(rng: &mut Rng, t: &mut TreeD, mix: DcMix) {
+    let order = t.walk(0).order;
+    let k = order.len();
+    match mix {
+        DcMix::All => {
+            for i in 0..k {
+                t.nodes[order[i]].dc = *rng.pick(&[2u8, 2, 3, 1]);
+            }
+        }
+        DcMix::Mixed => {
+            for i in 0..k {
+                t.nodes[order[i]].dc = *rng.pick(&[0u8, 0, 2, 2, 3, 1]);
+            }
+        }
+        DcMix::Contiguous => {
+            let a = rng.below(k as u64) as usize;
+            let b = rng.range(a as u64, k as u64 - 1) as usize;
+            for i in 0..k {
+                t.nodes[order[i]].dc = if i >= a && i <= b { *rng.pick(&[2u8, 3, 1]) } else { 0 };
+            }
+        }
+    }
+}
+
+/// A spine of `junctions` (2..=5) forks/crosses, each inside a NON-last branch of the previous one
+/// (nesting depth `junctions - 1`, up to 4), optionally separated by passthrough devices, then grown
+/// with random devices anywhere up to about `n` devices (at most 24).
+fn gen_nested_tree(rng: &mut Rng, n: usize, junctions: usize, sym: bool, mix: DcMix) -> TreeD {
+    let f = rng.range(1, 600);
+    let mut t = TreeD::default();
+    let mk = |rng: &mut Rng, parent: Option<(usize, usize)>| NodeD {
+        dc: 2,
+        off: 0,
+        pd: if sym { f } else { rng.range(0, 900) },
+        fd: if sym { f } else { rng.range(0, 900) },
+        link: rng.range(10, 2000),
+        ch: [None; 3],
+        parent,
+    };
+    fn add(t: &mut TreeD, nd: NodeD, p: usize, slot: usize) -> usize {
+        let id = t.nodes.len();
+        t.nodes.push(nd);
+        t.nodes[p].ch[slot] = Some(id);
+        id
+    }
+    let root = mk(rng, None);
+    t.nodes.push(root);
+    let mut at = 0usize;
+    for level in 0..junctions {
+        // room left for the remaining junctions (2 children each at least)?
+        let need = 2 * (junctions - level);
+        if rng.chance(1, 3) && t.nodes.len() + need + 1 <= 24 {
+            let slot = rng.below(3) as usize;
+            let nd = mk(rng, Some((at, slot)));
+            at = add(&mut t, nd, at, slot);
+        }
+        let three = rng.chance(1, 3) && t.nodes.len() + need + 1 <= 24;
+        let slots: Vec<usize> = if three { vec![0, 1, 2] } else { let skip = rng.below(3) as usize; (0..3).filter(|k| *k != skip).collect() };
+        let mut kids = Vec::new();
+        for &slot in &slots {
+            let nd = mk(rng, Some((at, slot)));
+            kids.push(add(&mut t, nd, at, slot));
+        }
+        // the next junction sits in a branch that is not the last one of this junction
+        at = kids[rng.below(kids.len() as u64 - 1) as usize];
+    }
+    while t.nodes.len() < n.min(24) {
+        let cand: Vec<usize> = (0..t.nodes.len()).filter(|i| t.nodes[*i].ch.iter().flatten().count() < 3).collect();
+        let p = *rng.pick(&cand);
+        let free: Vec<usize> = (0..3).filter(|k| t.nodes[p].ch[*k].is_none()).collect();
+        let slot = *rng.pick(&free);
+        let nd = mk(rng, Some((p, slot)));
+        add(&mut t, nd, p, slot);
+    }
+    assign_dc(rng, &mut t, mix);
+    t
 }
 
 /// Choose local clock offsets. Returns false if the requested clock class cannot be met.
@@ -730,7 +792,7 @@ fn expect_of(t: &TreeD, truth: &Truth) -> Expect {
         down: truth.down.clone(),
         arrival: truth.arrival.clone(),
         chain: t.is_chain(),
-        nested: t.nested_junction(),
+        nest_depth: t.nest_depth(),
         wrap: (0..truth.order.len()).any(|p| wraps(t, truth, p)),
         chain_fwd_ret,
     }
@@ -756,7 +818,10 @@ fn tree_case(t: &TreeD, tin: u64, now: Option<u64>, net: &mut Option<Net>, rep: 
     let spec_line = format!("c17 spec {} {} {}", tin, now.map_or("-".to_string(), |n| n.to_string()), toks.join(","));
     rep.case(spec_line.clone(), spec_out);
     rep.hit(&format!("tree:n={}", match reps.len() { 1 => "1", 2..=4 => "2-4", 5..=12 => "5-12", _ => "13-24" }));
-    rep.hit(if ex.chain { "tree:chain" } else if ex.nested { "tree:nested-junction" } else { "tree:flat-junctions" });
+    rep.hit(if ex.chain { "tree:chain" } else if ex.nest_depth > 0 { "tree:nested-junction" } else { "tree:flat-junctions" });
+    if ex.nest_depth > 0 {
+        rep.hit(&format!("tree:nest-depth={}", ex.nest_depth.min(4)));
+    }
     if ex.wrap {
         rep.hit("tree:intra-device-wrap");
     }
@@ -867,13 +932,29 @@ pub fn run(tier: &str, seed: u64, rep: &mut Report) {
     tree_case(&chain_of(&[2, 0, 2], 40, 100, 7), 1000, Some(5000), &mut net, rep);
     // witness of c17/port-time-wrap: the first device's port 0 latch is 0xFFFF_FFF0, its port 3 latch wraps
     tree_case(&chain_of(&[2, 2], 40, 100, 0xFFFF_FFF0 - 1000), 1000, None, &mut net, rep);
-    // witness of c17/nested-junction-wrong-parent: with W the valid tree is rejected (a panic before the fix), without W, Z gets parent Y
+    // former witnesses of c17/nested-junction-wrong-parent (fixed: the parent search skips junctions without a free downstream
+    // port): with W the valid tree was rejected (a panic before that), without W, Z got parent Y. Ordinary valid trees now.
     tree_case(&nested_witness(), 1000, Some(5000), &mut net, rep);
     {
         let mut t = nested_witness();
         t.nodes.pop();
         t.nodes[0].ch[2] = None;
         tree_case(&t, 1000, None, &mut net, rep);
+    }
+    // five crosses nested four deep, each on port 3 (the FIRST branch) of the enclosing cross, whose ports 1 and 2 carry line ends
+    {
+        let nd = |parent, ch| NodeD { dc: 2, off: 77, pd: 40, fd: 50, link: 100, ch, parent };
+        let mut t = TreeD { nodes: vec![nd(None, [None; 3])] };
+        let mut at = 0usize;
+        for _ in 0..5 {
+            let base = t.nodes.len();
+            for k in 0..3 {
+                t.nodes.push(nd(Some((at, k)), [None; 3]));
+                t.nodes[at].ch[k] = Some(base + k);
+            }
+            at = base;
+        }
+        tree_case(&t, 1000, Some(5000), &mut net, rep);
     }
     // former witnesses of c17/offset-i64-overflow (now plain values): receive time 2^63 (negate), and 2^63 + 1 with a large master time (add)
     run_dc_case(&[Rep { active: [true, false, false, false], dc: 2, times: [5, 0, 0, 0], rx: 1 << 63 }], 5, &none, None, &mut net, rep);
@@ -907,12 +988,21 @@ pub fn run(tier: &str, seed: u64, rep: &mut Report) {
         1 => rng.below(1 << 40),
         _ => rng.below(1 << 33),
     };
-    // valid trees without nested junctions, no intra-device wrap: everything must hold
+    // valid trees of every shape (flat, arbitrary, junctions nested up to 4 deep inside non-last branches), no intra-device
+    // wrap: everything must hold
     for i in 0..600 * scale {
         let n = if i % 7 == 0 { rng.range(13, 24) } else { rng.range(1, 12) } as usize;
         let mix = *rng.pick(&[DcMix::All, DcMix::Mixed, DcMix::Contiguous]);
         let sym = rng.chance(1, 2);
-        let mut t = gen_tree(&mut rng, n, Shape::Flat, sym, mix);
+        let mut t = match i % 4 {
+            0 => gen_tree(&mut rng, n, Shape::Flat, sym, mix),
+            1 => gen_tree(&mut rng, n, Shape::Any, sym, mix),
+            2 => gen_tree(&mut rng, n.max(5), Shape::Nested, sym, mix),
+            _ => {
+                let j = rng.range(2, 5) as usize;
+                gen_nested_tree(&mut rng, n, j, sym, mix)
+            }
+        };
         let tin = tin_of(&mut rng);
         set_clocks(&mut rng, &mut t, tin, Clocks::NoWrap);
         let now = if i % 3 == 0 { Some(edgy_now(&mut rng)) } else { None };
@@ -931,13 +1021,19 @@ pub fn run(tier: &str, seed: u64, rep: &mut Report) {
         set_clocks(&mut rng, &mut t, tin, Clocks::NoWrap);
         tree_case(&t, tin, if i % 4 == 0 { Some(edgy_now(&mut rng)) } else { None }, &mut net, rep);
     }
-    // any shape (nested junctions included)
+    // nested junctions: rejection-sampled random trees, and spines of 2-5 junctions each inside a non-last branch of the previous
     for i in 0..300 * scale {
         let n = rng.range(4, 24) as usize;
-        let shape = if i % 2 == 0 { Shape::Nested } else { Shape::Any };
         let sym = rng.chance(1, 2);
         let mix = *rng.pick(&[DcMix::All, DcMix::Mixed]);
-        let mut t = gen_tree(&mut rng, n.max(5), shape, sym, mix);
+        let mut t = match i % 3 {
+            0 => gen_tree(&mut rng, n.max(5), Shape::Nested, sym, mix),
+            1 => gen_tree(&mut rng, n.max(5), Shape::Any, sym, mix),
+            _ => {
+                let j = rng.range(2, 5) as usize;
+                gen_nested_tree(&mut rng, n, j, sym, mix)
+            }
+        };
         let tin = tin_of(&mut rng);
         set_clocks(&mut rng, &mut t, tin, Clocks::NoWrap);
         tree_case(&t, tin, if i % 5 == 0 { Some(edgy_now(&mut rng)) } else { None }, &mut net, rep);
@@ -945,7 +1041,7 @@ pub fn run(tier: &str, seed: u64, rep: &mut Report) {
     // 32-bit wrap between the latches of one device
     for _ in 0..200 * scale {
         let n = rng.range(2, 16) as usize;
-        let shape = *rng.pick(&[Shape::Flat, Shape::Chain]);
+        let shape = *rng.pick(&[Shape::Flat, Shape::Chain, Shape::Any]);
         let sym = rng.chance(1, 2);
         let mut t = gen_tree(&mut rng, n, shape, sym, DcMix::All);
         let tin = tin_of(&mut rng);
